@@ -51,7 +51,7 @@ where
     }
 
     fn size_hint(&self) -> (usize, Option<usize>) {
-        let n = (self.pointers.len() - K::I::one()).into();
+        let n = (self.pointers.len() - K::I::one() - self.index.clone()).into();
         (n, Some(n)) // exact size is known
     }
 }
@@ -63,7 +63,7 @@ where
     K::I: Into<usize>,
 {
     fn len(&self) -> usize {
-        (self.pointers.len() - K::I::one()).into()
+        (self.pointers.len() - K::I::one() - self.index.clone()).into()
     }
 }
 
